@@ -1,4 +1,565 @@
+//! L-bind: the bindings (compiled as an rlib by ../bshim from /repo/bindings/src/lib.rs) next to the
+//! core parser, on the same inputs.  Cases (first field = kind):
+//!
+//!   P <hex input> <factor m^e>
+//!       core: CooklangParser::canonical().parse(input) -> scale(factor); bindings: parse_recipe(input, factor),
+//!       then deref_component on every step item and deref_ingredient/cookware/timer on every entry of
+//!       every section reference list.
+//!       -> `P ok ; K <sections> ; KI <ingredients> ; KC <cookware> ; KT <timers> ; KM <metadata>
+//!              ; B <sections> ; BI .. ; BC .. ; BT .. ; BM .. ; D <deref of items> ; R <deref of section lists>`
+//!          `P invalid <ok|panic>`      the core parser rejects the input (what the bindings did with it)
+//!          `P bpanic <hex message>`    the core parser accepts, parse_recipe panicked
+//!   C <ingredients> <indices>
+//!       ingredients `name|qty|note` joined by `,` (`-` = none), built as core ingredients and converted with
+//!       the bindings' public `From<&cooklang::Ingredient>`; indices joined by `.` (`-` = none)
+//!       -> `C <selected> ; <all> ; <sub> ; L <the list as the bindings hold it>`
+//!          selected = combine_ingredients_selected(list, indices), all = combine_ingredients(list),
+//!          sub = combine_ingredients(the sublist named by the indices) or `-` when an index is out of range;
+//!          each is an ingredient list sorted by name, or `panic:<hex message>`
+//!
+//! Formats.  value: `n:<m^e>` | `r:<m^e>:<m^e>` | `t:<hex>` | `e`;  quantity/amount: `<value>@<unit hex|->` or `-`;
+//! core ingredient `name|qty|note`, cookware `name|value`, timer `name|qty`; bindings ingredient
+//! `name|amount|descriptor`, cookware `name|amount`, timer `name|amount`.  Items: `t<hex>` `i<n>` `c<n>` `m<n>`
+//! `q<n>` joined by `+`.  Core section `title~content` with content `S<items>` / `T<hex>` joined by `,`;
+//! bindings section `title~blocks~irefs~crefs~trefs` with blocks `S<items>/<irefs>/<crefs>/<trefs>` / `T<hex>`,
+//! reference lists joined by `.`.  Sections joined by `!`.  Ingredient list: `name=<unit>/<kind>/<value>,..`
+//! joined by `+`, names and keys sorted by their bytes.  Empty list = `-` (reference lists: empty).
+//!
+//! `Amount`'s fields are crate-private: they are read from the record's `Debug` rendering (parsed, with
+//! Rust's string escapes undone) and cross-checked through the public `combine_ingredients` on a singleton
+//! (`READERR` is printed if the two readings differ).
+use cooklang::quantity::{Number, Quantity, Value as CValue};
+use cooklang::{Content, CooklangParser, Item as CItem};
+use cooklang_bindings::model::{
+    Amount, Block, Component, Cookware, CooklangRecipe, Ingredient, IngredientList, Item, QuantityType, Timer,
+    Value,
+};
+use cooklang_bindings::{
+    combine_ingredients, combine_ingredients_selected, deref_component, deref_cookware, deref_ingredient,
+    deref_timer, parse_recipe,
+};
+use vh::*;
+
+fn ftok(v: f64) -> String {
+    let s = f64_exact(v);
+    if s.contains(' ') {
+        s.replace(' ', "^")
+    } else {
+        s
+    }
+}
+
+fn tok_f64(s: &str) -> f64 {
+    // m^e, exactly representable by construction
+    let (m, e) = s.split_once('^').expect("m^e");
+    let m: f64 = m.parse::<i64>().expect("mantissa") as f64;
+    let e: i32 = e.parse().expect("exponent");
+    m * (2.0f64).powi(e)
+}
+
+fn opt_hex(s: &Option<String>) -> String {
+    match s {
+        Some(x) => hex(x),
+        None => "-".into(),
+    }
+}
+
+fn list_or_dash(v: Vec<String>, sep: &str) -> String {
+    if v.is_empty() {
+        "-".into()
+    } else {
+        v.join(sep)
+    }
+}
+
+// ---------------------------------------------------------------- core side
+
+fn cvalue(v: &CValue) -> String {
+    match v {
+        CValue::Number(n) => format!("n:{}", ftok(n.value())),
+        CValue::Range { start, end } => format!("r:{}:{}", ftok(start.value()), ftok(end.value())),
+        CValue::Text(t) => format!("t:{}", hex(t)),
+    }
+}
+
+fn cqty(q: &Option<Quantity<CValue>>) -> String {
+    match q {
+        None => "-".into(),
+        Some(q) => format!(
+            "{}@{}",
+            cvalue(q.value()),
+            match q.unit() {
+                Some(u) => hex(u),
+                None => "-".into(),
+            }
+        ),
+    }
+}
+
+fn citem(it: &CItem) -> String {
+    match it {
+        CItem::Text { value } => format!("t{}", hex(value)),
+        CItem::Ingredient { index } => format!("i{}", index),
+        CItem::Cookware { index } => format!("c{}", index),
+        CItem::Timer { index } => format!("m{}", index),
+        CItem::InlineQuantity { index } => format!("q{}", index),
+    }
+}
+
+fn core_dump(r: &cooklang::ScaledRecipe) -> String {
+    let secs: Vec<String> = r
+        .sections
+        .iter()
+        .map(|s| {
+            let content: Vec<String> = s
+                .content
+                .iter()
+                .map(|c| match c {
+                    Content::Step(st) => {
+                        format!("S{}", st.items.iter().map(citem).collect::<Vec<_>>().join("+"))
+                    }
+                    Content::Text(t) => format!("T{}", hex(t)),
+                })
+                .collect();
+            format!("{}~{}", opt_hex(&s.name), list_or_dash(content, ","))
+        })
+        .collect();
+    let ings: Vec<String> = r
+        .ingredients
+        .iter()
+        .map(|i| format!("{}|{}|{}", hex(&i.name), cqty(&i.quantity), opt_hex(&i.note)))
+        .collect();
+    let cws: Vec<String> = r
+        .cookware
+        .iter()
+        .map(|c| {
+            format!(
+                "{}|{}",
+                hex(&c.name),
+                match &c.quantity {
+                    Some(v) => cvalue(v),
+                    None => "-".into(),
+                }
+            )
+        })
+        .collect();
+    let tms: Vec<String> = r
+        .timers
+        .iter()
+        .map(|t| format!("{}|{}", opt_hex(&t.name), cqty(&t.quantity)))
+        .collect();
+    let meta: Vec<String> = r
+        .metadata
+        .map
+        .iter()
+        .map(|(k, v)| {
+            format!(
+                "{}={}",
+                k.as_str().map(hex).unwrap_or("-".into()),
+                v.as_str().map(hex).unwrap_or("-".into())
+            )
+        })
+        .collect();
+    format!(
+        "K {} ; KI {} ; KC {} ; KT {} ; KM {}",
+        list_or_dash(secs, "!"),
+        list_or_dash(ings, ","),
+        list_or_dash(cws, ","),
+        list_or_dash(tms, ","),
+        list_or_dash(meta, ",")
+    )
+}
+
+// ---------------------------------------------------------------- reading an Amount
+
+struct Cur<'a> {
+    s: &'a str,
+}
+
+impl<'a> Cur<'a> {
+    fn eat(&mut self, p: &str) -> Result<(), String> {
+        if let Some(r) = self.s.strip_prefix(p) {
+            self.s = r;
+            Ok(())
+        } else {
+            Err(format!("expected {:?} at {:?}", p, self.s))
+        }
+    }
+    fn until(&mut self, p: &str) -> Result<&'a str, String> {
+        match self.s.find(p) {
+            Some(i) => {
+                let (a, b) = self.s.split_at(i);
+                self.s = &b[p.len()..];
+                Ok(a)
+            }
+            None => Err(format!("no {:?} in {:?}", p, self.s)),
+        }
+    }
+    /// a string literal as `<str as Debug>` writes it
+    fn strlit(&mut self) -> Result<String, String> {
+        self.eat("\"")?;
+        let mut out = String::new();
+        let mut it = self.s.char_indices();
+        loop {
+            let (i, c) = it.next().ok_or("unterminated string")?;
+            match c {
+                '"' => {
+                    self.s = &self.s[i + 1..];
+                    return Ok(out);
+                }
+                '\\' => {
+                    let (_, e) = it.next().ok_or("dangling backslash")?;
+                    match e {
+                        'n' => out.push('\n'),
+                        'r' => out.push('\r'),
+                        't' => out.push('\t'),
+                        '0' => out.push('\0'),
+                        '\\' => out.push('\\'),
+                        '"' => out.push('"'),
+                        '\'' => out.push('\''),
+                        'u' => {
+                            let (_, b) = it.next().ok_or("bad \\u")?;
+                            if b != '{' {
+                                return Err("bad \\u".into());
+                            }
+                            let mut h = String::new();
+                            loop {
+                                let (_, d) = it.next().ok_or("bad \\u")?;
+                                if d == '}' {
+                                    break;
+                                }
+                                h.push(d);
+                            }
+                            let cp = u32::from_str_radix(&h, 16).map_err(|_| "bad \\u digits")?;
+                            out.push(char::from_u32(cp).ok_or("bad scalar")?);
+                        }
+                        _ => return Err(format!("unknown escape \\{}", e)),
+                    }
+                }
+                _ => out.push(c),
+            }
+        }
+    }
+}
+
+fn parse_amount_debug(d: &str) -> Result<(Value, Option<String>), String> {
+    let mut c = Cur { s: d };
+    c.eat("Amount { quantity: ")?;
+    let pf = |s: &str| s.parse::<f64>().map_err(|_| format!("bad float {:?}", s));
+    let v = if c.eat("Number { value: ").is_ok() {
+        Value::Number { value: pf(c.until(" }")?)? }
+    } else if c.eat("Range { start: ").is_ok() {
+        let a = pf(c.until(", end: ")?)?;
+        let b = pf(c.until(" }")?)?;
+        Value::Range { start: a, end: b }
+    } else if c.eat("Text { value: ").is_ok() {
+        let t = c.strlit()?;
+        c.eat(" }")?;
+        Value::Text { value: t }
+    } else {
+        c.eat("Empty")?;
+        Value::Empty
+    };
+    c.eat(", units: ")?;
+    let u = if c.eat("None").is_ok() {
+        None
+    } else {
+        c.eat("Some(")?;
+        let s = c.strlit()?;
+        c.eat(")")?;
+        Some(s)
+    };
+    c.eat(" }")?;
+    if !c.s.is_empty() {
+        return Err(format!("trailing {:?}", c.s));
+    }
+    Ok((v, u))
+}
+
+fn same_f(a: f64, b: f64) -> bool {
+    a.to_bits() == b.to_bits() || (a.is_nan() && b.is_nan())
+}
+
+fn same_value(a: &Value, b: &Value) -> bool {
+    match (a, b) {
+        (Value::Number { value: x }, Value::Number { value: y }) => same_f(*x, *y),
+        (Value::Range { start: a1, end: a2 }, Value::Range { start: b1, end: b2 }) => {
+            same_f(*a1, *b1) && same_f(*a2, *b2)
+        }
+        (Value::Text { value: x }, Value::Text { value: y }) => x == y,
+        (Value::Empty, Value::Empty) => true,
+        _ => false,
+    }
+}
+
+fn bvalue(v: &Value) -> String {
+    match v {
+        Value::Number { value } => format!("n:{}", ftok(*value)),
+        Value::Range { start, end } => format!("r:{}:{}", ftok(*start), ftok(*end)),
+        Value::Text { value } => format!("t:{}", hex(value)),
+        Value::Empty => "e".into(),
+    }
+}
+
+fn kind_char(k: &QuantityType) -> &'static str {
+    match k {
+        QuantityType::Number => "n",
+        QuantityType::Range => "r",
+        QuantityType::Text => "t",
+        QuantityType::Empty => "e",
+    }
+}
+
+fn amount(a: &Option<Amount>) -> String {
+    let a = match a {
+        None => return "-".into(),
+        Some(a) => a,
+    };
+    let (v, u) = match parse_amount_debug(&format!("{:?}", a)) {
+        Ok(x) => x,
+        Err(e) => return format!("READERR:{}", hex(&e)),
+    };
+    // second reading through the public API: the only entry of the singleton list
+    let single = vec![Ingredient { name: String::new(), amount: Some(a.clone()), descriptor: None }];
+    let ok = match guarded(|| combine_ingredients(&single)) {
+        Ok(l) => match l.get("") {
+            Some(g) if g.len() == 1 && l.len() == 1 => {
+                let (k, gv) = g.iter().next().unwrap();
+                same_value(gv, &v) && k.name == u.clone().unwrap_or_default()
+            }
+            _ => false,
+        },
+        Err(_) => false,
+    };
+    if !ok {
+        return format!("READERR:{}", hex("Debug and combine_ingredients readings differ"));
+    }
+    format!("{}@{}", bvalue(&v), opt_hex(&u))
+}
+
+// ---------------------------------------------------------------- bindings side
+
+fn bitem(it: &Item) -> String {
+    match it {
+        Item::Text { value } => format!("t{}", hex(value)),
+        Item::IngredientRef { index } => format!("i{}", index),
+        Item::CookwareRef { index } => format!("c{}", index),
+        Item::TimerRef { index } => format!("m{}", index),
+    }
+}
+
+fn refs(v: &[u32]) -> String {
+    v.iter().map(|x| x.to_string()).collect::<Vec<_>>().join(".")
+}
+
+fn bing(i: &Ingredient) -> String {
+    format!("{}|{}|{}", hex(&i.name), amount(&i.amount), opt_hex(&i.descriptor))
+}
+fn bcw(c: &Cookware) -> String {
+    format!("{}|{}", hex(&c.name), amount(&c.amount))
+}
+fn btm(t: &Timer) -> String {
+    format!("{}|{}", opt_hex(&t.name), amount(&t.amount))
+}
+
+fn bind_dump(r: &CooklangRecipe) -> String {
+    let secs: Vec<String> = r
+        .sections
+        .iter()
+        .map(|s| {
+            let blocks: Vec<String> = s
+                .blocks
+                .iter()
+                .map(|b| match b {
+                    Block::StepBlock(st) => format!(
+                        "S{}/{}/{}/{}",
+                        st.items.iter().map(bitem).collect::<Vec<_>>().join("+"),
+                        refs(&st.ingredient_refs),
+                        refs(&st.cookware_refs),
+                        refs(&st.timer_refs)
+                    ),
+                    Block::NoteBlock(n) => format!("T{}", hex(&n.text)),
+                })
+                .collect();
+            format!(
+                "{}~{}~{}~{}~{}",
+                opt_hex(&s.title),
+                list_or_dash(blocks, ","),
+                refs(&s.ingredient_refs),
+                refs(&s.cookware_refs),
+                refs(&s.timer_refs)
+            )
+        })
+        .collect();
+    let mut meta: Vec<(String, String)> = r.metadata.iter().map(|(k, v)| (hex(k), hex(v))).collect();
+    meta.sort();
+    format!(
+        "B {} ; BI {} ; BC {} ; BT {} ; BM {}",
+        list_or_dash(secs, "!"),
+        list_or_dash(r.ingredients.iter().map(bing).collect(), ","),
+        list_or_dash(r.cookware.iter().map(bcw).collect(), ","),
+        list_or_dash(r.timers.iter().map(btm).collect(), ","),
+        list_or_dash(meta.into_iter().map(|(k, v)| format!("{}={}", k, v)).collect(), ",")
+    )
+}
+
+fn component(c: &Component) -> String {
+    match c {
+        Component::IngredientComponent(i) => format!("I{}", bing(i)),
+        Component::CookwareComponent(c) => format!("C{}", bcw(c)),
+        Component::TimerComponent(t) => format!("M{}", btm(t)),
+        Component::TextComponent(s) => format!("X{}", hex(s)),
+    }
+}
+
+fn deref_dump(r: &CooklangRecipe) -> String {
+    let mut d = Vec::new();
+    let mut l = Vec::new();
+    for s in &r.sections {
+        for b in &s.blocks {
+            if let Block::StepBlock(st) = b {
+                for it in &st.items {
+                    d.push(match guarded(|| deref_component(r, it.clone())) {
+                        Ok(c) => component(&c),
+                        Err(_) => "P".into(),
+                    });
+                }
+            }
+        }
+        for i in &s.ingredient_refs {
+            l.push(match guarded(|| deref_ingredient(r, *i)) {
+                Ok(x) => format!("I{}", bing(&x)),
+                Err(_) => "P".into(),
+            });
+        }
+        for i in &s.cookware_refs {
+            l.push(match guarded(|| deref_cookware(r, *i)) {
+                Ok(x) => format!("C{}", bcw(&x)),
+                Err(_) => "P".into(),
+            });
+        }
+        for i in &s.timer_refs {
+            l.push(match guarded(|| deref_timer(r, *i)) {
+                Ok(x) => format!("M{}", btm(&x)),
+                Err(_) => "P".into(),
+            });
+        }
+    }
+    format!("D {} ; R {}", list_or_dash(d, ","), list_or_dash(l, ","))
+}
+
+fn ilist_dump(l: &IngredientList) -> String {
+    let mut names: Vec<&String> = l.keys().collect();
+    names.sort_by(|a, b| a.as_bytes().cmp(b.as_bytes()));
+    let ents: Vec<String> = names
+        .into_iter()
+        .map(|n| {
+            let g = &l[n];
+            let mut ks: Vec<(Vec<u8>, &'static str, String)> = g
+                .iter()
+                .map(|(k, v)| (k.name.as_bytes().to_vec(), kind_char(&k.unit_type), bvalue(v)))
+                .collect();
+            ks.sort();
+            format!(
+                "{}={}",
+                hex(n),
+                list_or_dash(
+                    ks.into_iter()
+                        .map(|(u, k, v)| format!("{}/{}/{}", hexb(&u), k, v))
+                        .collect(),
+                    ","
+                )
+            )
+        })
+        .collect();
+    list_or_dash(ents, "+")
+}
+
+// ---------------------------------------------------------------- case input
+
+fn parse_cvalue(t: &str) -> CValue {
+    let p: Vec<&str> = t.split(':').collect();
+    match p[0] {
+        "n" => CValue::Number(Number::Regular(tok_f64(p[1]))),
+        "r" => CValue::Range {
+            start: Number::Regular(tok_f64(p[1])),
+            end: Number::Regular(tok_f64(p[2])),
+        },
+        "t" => CValue::Text(unhex(p[1])),
+        _ => panic!("bad value token"),
+    }
+}
+
 fn main() {
-    let r = cooklang_bindings::parse_recipe("a @b{1%g}".to_string(), 2.0);
-    println!("{:?}", r);
+    let parser = CooklangParser::canonical();
+    // a core ingredient to clone: the fields the bindings read are public and overwritten per case
+    let template: cooklang::Ingredient<CValue> = {
+        let (rec, _) = parser.parse("@a").into_result().expect("template");
+        rec.scale(1.0, parser.converter()).ingredients[0].clone()
+    };
+    drive(|f| match f[0] {
+        "P" => {
+            let input = unhex(f[1]);
+            let factor = tok_f64(f[2]);
+            let core = match guarded(|| parser.parse(&input).into_result()) {
+                Ok(Ok((rec, _))) => rec,
+                _ => {
+                    let b = guarded(|| parse_recipe(input.clone(), factor));
+                    return format!("P invalid {}", if b.is_ok() { "ok" } else { "panic" });
+                }
+            };
+            let scaled = core.scale(factor, parser.converter());
+            let b = match guarded(|| parse_recipe(input.clone(), factor)) {
+                Ok(b) => b,
+                Err(m) => return format!("P bpanic {}", hex(&m)),
+            };
+            format!("P ok ; {} ; {} ; {}", core_dump(&scaled), bind_dump(&b), deref_dump(&b))
+        }
+        "C" => {
+            let ings: Vec<Ingredient> = if f[1] == "-" {
+                vec![]
+            } else {
+                f[1].split(',')
+                    .map(|t| {
+                        let p: Vec<&str> = t.split('|').collect();
+                        let mut c = template.clone();
+                        c.name = unhex(p[0]);
+                        c.quantity = if p[1] == "-" {
+                            None
+                        } else {
+                            let (v, u) = p[1].rsplit_once('@').expect("qty");
+                            Some(Quantity::new(parse_cvalue(v), if u == "-" { None } else { Some(unhex(u)) }))
+                        };
+                        c.note = if p[2] == "-" { None } else { Some(unhex(p[2])) };
+                        Ingredient::from(&c)
+                    })
+                    .collect()
+            };
+            let idx: Vec<u32> = if f[2] == "-" {
+                vec![]
+            } else {
+                f[2].split('.').map(|x| x.parse().expect("index")).collect()
+            };
+            let show = |r: Result<IngredientList, String>| match r {
+                Ok(l) => ilist_dump(&l),
+                Err(m) => format!("panic:{}", hex(&m)),
+            };
+            let sel = show(guarded(|| combine_ingredients_selected(&ings, &idx)));
+            let all = show(guarded(|| combine_ingredients(&ings)));
+            let sub = if idx.iter().all(|i| (*i as usize) < ings.len()) {
+                let subl: Vec<Ingredient> = idx.iter().map(|i| ings[*i as usize].clone()).collect();
+                show(guarded(|| combine_ingredients(&subl)))
+            } else {
+                "-".into()
+            };
+            format!(
+                "C {} ; {} ; {} ; L {}",
+                sel,
+                all,
+                sub,
+                list_or_dash(ings.iter().map(bing).collect(), ",")
+            )
+        }
+        _ => panic!("bad case kind"),
+    })
 }
